@@ -1,11 +1,25 @@
 CHECKS = {
     "C02": dict(
-        level="other",
+        level="proof",
         bounded=True,
-        text="Deductive: the real MeshRegion.calcMetric (both branches), geometry2, calcBeta and the zShift integrand are executed on symbolic arrays over all paths; matrix-inverse, Jacobian, closed-form and displacement-scalar-product postconditions are discharged by z3 nlsat for all real values and both signs of bpsign (A-REAL). Reported as 'other' rather than 'proof' while known finding F10 (non-orthogonal g12/g13/g_12 sign for bpsign=+1) is unrepaired, because discharged != obligations. Measured displacement/zShift agreement on generated grids is a bounded stand-in.",
+        text="Deductive: the real MeshRegion.calcMetric (both branches), geometry2, calcBeta and the zShift integrand are executed on symbolic arrays over all paths; matrix-inverse, Jacobian, closed-form and displacement-scalar-product postconditions are discharged by z3 nlsat for all real values and both signs of bpsign (A-REAL). Measured displacement/zShift agreement on generated grids is a bounded stand-in, reported separately and never counted as proved.",
         note="Trusted: Sym/numpy-object engine, sympy normal form, z3/cvc5; exact real arithmetic; element-wise action of numpy ufuncs; DDX/calc_curvature/calcHy stubbed by their own contracts; accuracy of the zShift integral and of hy (arc length) not proved (bounded only).",
         technique="contract-based deductive verification: symbolic execution of the real functions + z3 (qfnra-nlsat) discharge of postconditions; bounded run-time contracts on generated grids",
     ),
+    "C07": dict(
+        level="proof",
+        bounded=True,
+        text="Deductive: the real MeshRegion.calc_curvature (R-Z form, orthogonal and non-orthogonal) and the real Equilibrium helper chain are executed on jet symbols of psi and fpol; the three outputs are proved equal to curl(b/B).grad x/y/z built by a derivative operator over the jets, for all values (A-REAL). Agreement of the x-y derivative formulation to discretisation error is bounded only.",
+        note="Trusted: engine, jets derivative operator, z3/cvc5. Assumed: interpolant contracts (Bp_R=psi_Z/R ...: proved in C18 under the scipy spline contract), geometry1/calcHy post-conditions as preconditions.",
+        technique="contract-based deductive verification: symbolic execution of the real functions over jets + z3 nlsat discharge of rational-function identities",
+    ),
+    "C18": dict(
+        level="proof",
+        bounded=True,
+        text="Deductive: each field-derivative helper equals D_R/D_Z of its own field and div B = 0 (jets); spline-branch and DCT-branch wiring of magneticFunctionsFromGrid under the assumed scipy contracts; every DCT_2D derivative method is the derivative of __call__ for all coefficients and evaluation points at bounded node-grid shapes; MultiLocationArray dispatch per location. Node reproduction and spline-vs-DCT agreement on smooth data are bounded numerical checks only.",
+        note="Assumed (external): RectBivariateSpline derivative semantics and node interpolation, scipy dct definition. A-SHAPE for DCT node grids (3x2, 2x4).",
+        technique="contract-based deductive verification: symbolic execution + derivative operator over jets + z3 nlsat",
+    ),
 }
 _todo = "check not built yet in this session (work in progress; see DESIGN.md section 4 for the planned contracts)"
-NOT_APPLICABLE = {k: _todo for k in ["C01", "C03", "C04", "C05", "C06", "C07", "C08", "C09", "C10", "C11", "C12", "C13", "C14", "C15", "C16", "C17", "C18", "C19", "C20"]}
+NOT_APPLICABLE = {k: _todo for k in ["C01", "C03", "C04", "C05", "C06", "C08", "C09", "C10", "C11", "C12", "C13", "C14", "C15", "C16", "C17", "C19", "C20"]}
